@@ -405,6 +405,14 @@ func BuildFileIndexFromJournal(path string, journal *ast.Journal) *FileIndex {
 }
 
 func resolveIncludePaths(basePath string, includes []ast.Include) []string {
+	resolved := includePathsInOrder(basePath, includes)
+	sort.Strings(resolved)
+	return resolved
+}
+
+// includePathsInOrder resolves the include directives of a file in the order
+// in which they are written (the matches of a glob sorted).
+func includePathsInOrder(basePath string, includes []ast.Include) []string {
 	if len(includes) == 0 {
 		return nil
 	}
@@ -440,7 +448,6 @@ func resolveIncludePaths(basePath string, includes []ast.Include) []string {
 			resolved = append(resolved, resolvedPath)
 		}
 	}
-	sort.Strings(resolved)
 	return resolved
 }
 
